@@ -504,10 +504,19 @@ class ScriptedSocket:
     sets the peer's exit_event and raises TimeoutError (recv_loop turns that into a clean exit).  sendall()/send() are
     scheduling points and record (writer thread, bytes)."""
 
-    def __init__(self, sched, peer_no, messages, exit_event):
+    def __init__(self, sched, peer_no, messages, exit_event, stream=False):
         self._s = sched
         self.peer_no = peer_no
         self._msgs = list(messages)
+        self._stream = stream  # True: a byte stream as TCP delivers it - recv(n) returns up to n bytes even across
+        # message boundaries (a reader that asks for more than one message's rest gets the next messages too)
+        self._data = b"".join(self._msgs)
+        self._pos = 0
+        self._starts = []
+        o = 0
+        for m in self._msgs:
+            self._starts.append(o)
+            o += len(m)
         self._cur = 0  # index of the message being served
         self._off = 0
         self._exit_event = exit_event
@@ -516,6 +525,18 @@ class ScriptedSocket:
         self.recv_after_drain = 0
 
     def recv(self, n, *flags):
+        if self._stream:
+            if self._pos >= len(self._data):
+                self.recv_after_drain += 1
+                self._exit_event.set()
+                raise TimeoutError("scripted socket drained")
+            if self._pos in self._starts:
+                w = self._s.who()
+                if w is not None and w < self._s.n:
+                    self._s.msg_index[w] = self._starts.index(self._pos)
+            chunk = self._data[self._pos : self._pos + n]
+            self._pos += len(chunk)
+            return chunk
         while self._cur < len(self._msgs) and self._off >= len(self._msgs[self._cur]):
             self._cur += 1
             self._off = 0
@@ -574,7 +595,7 @@ class Execution:
 _LOCK_TYPES = (type(threading.Lock()), type(threading.RLock()))
 
 
-def run_node(p2p, peer_messages, schedule=(), order=None, preempt=None, lines=False):
+def run_node(p2p, peer_messages, schedule=(), order=None, preempt=None, lines=False, stream=False):
     """Run Node.recv_loop for len(peer_messages) peers under the given schedule; returns an Execution.
     peer_messages[p] is the list of serialised messages peer p sends. `order` (a permutation of the peers) replaces the
     schedule by "run the first thread of `order` that can run", i.e. a serial execution in that order. `preempt` /
@@ -595,7 +616,7 @@ def run_node(p2p, peer_messages, schedule=(), order=None, preempt=None, lines=Fa
     bodies = []
     for p in range(n):
         th = StandInThread()
-        sock = ScriptedSocket(sched, p, peer_messages[p], th.exit_event)
+        sock = ScriptedSocket(sched, p, peer_messages[p], th.exit_event, stream=stream)
         node._peer_sockets[p] = sock
         node._peer_threads[p] = th
         node._peer_data[p] = {}
